@@ -102,7 +102,7 @@ def run(tier):
                        "x U-turn answers x accept decisions) and each is replayed into the real nuts::draw; a replayed behaviour "
                        "is non-trivial if it has >= 2 merges; distinct by its event list")
     chk.assumptions = [
-        "detailed balance is established by enumeration up to tree depth 2 (quick) / 3 (thorough), not for all depths",
+        "detailed balance is established by enumeration up to tree depth 2 (quick) / 3 (thorough, depth 3 with equal weights only), not for all depths",
         "replay drives the real tree builder through a scripted Hamiltonian; the real integrator's contribution is covered by C02/C03",
         "acceptance probabilities are compared with 1e-12 relative tolerance (logaddexp/exp are inexact) and by RNG words placed 1e-9 around p",
     ]
@@ -113,7 +113,9 @@ def run(tier):
     if tier == "thorough":
         run_kernel(chk, "d1_all_w3", 1, [1, 2, 3], "all", 0, 1800)
         run_kernel(chk, "d2_apex2", 2, [1, 2], "apex", 2, 3000)
-        run_kernel(chk, "d3_apex0", 3, [1, 2], "apex", 0, 3000)
+        # depth 3 with two weight values does not finish within an hour on this machine; with equal weights detailed
+        # balance is symmetry of K over all U-turn tables (about 10 min)
+        run_kernel(chk, "d3_apex0_w1", 3, [1], "apex", 0, 5400)
     # 2. refinement operational -> denotational
     run_refine(chk, "d2", 2, 40 if tier == "quick" else 400, (1, 2, 3))
     run_refine(chk, "d1", 1, 40 if tier == "quick" else 200, (1, 2, 3))
